@@ -60,11 +60,11 @@ int main(int argc, char** argv) {
         std::vector<std::vector<long long>> keys(m);
         for (auto& k : keys) { size_t n; is >> n; k.resize(n); for (auto& x : k) is >> x; }
         long long r = 0; if (mode == 1) is >> r;
-        run_one<long long, long long>(out, keys, 0, mode, r, std::less<long long>(), [](long long k, long long) { return k; }, [](long long v) { return v; });
-        run_one<long long, size_t>(out, keys, 1, mode, r, std::greater<long long>(), [](long long k, long long) { return 1000 - k; }, [](long long v) { return 1000 - v; });
-        run_one<KP, int>(out, keys, 2, mode, r, KPLess(), [](long long k, long long s) { return KP{k, s}; }, [](const KP& v) { return v.key; });
-        run_one<long long, unsigned long long>(out, keys, 0, mode, r, std::less<long long>(), [](long long k, long long) { return k; }, [](long long v) { return v; });
-        run_one<KP, unsigned int>(out, keys, 2, mode, r, KPLess(), [](long long k, long long s) { return KP{k, s}; }, [](const KP& v) { return v.key; });
+        run_one<long long, long long>(out, keys, 0, mode, r, VF_Stateful<std::less<long long>>(1), [](long long k, long long) { return k; }, [](long long v) { return v; });
+        run_one<long long, size_t>(out, keys, 1, mode, r, VF_Stateful<std::greater<long long>>(1), [](long long k, long long) { return 1000 - k; }, [](long long v) { return 1000 - v; });
+        run_one<KP, int>(out, keys, 2, mode, r, VF_Stateful<KPLess>(1), [](long long k, long long s) { return KP{k, s}; }, [](const KP& v) { return v.key; });
+        run_one<long long, unsigned long long>(out, keys, 0, mode, r, VF_Stateful<std::less<long long>>(1), [](long long k, long long) { return k; }, [](long long v) { return v; });
+        run_one<KP, unsigned int>(out, keys, 2, mode, r, VF_Stateful<KPLess>(1), [](long long k, long long s) { return KP{k, s}; }, [](const KP& v) { return v.key; });
     }
     out.flush();
     return 0;
